@@ -191,7 +191,6 @@ func runLostUpdate(p *Prog, r *Report) {
 	r.Clauses = append(r.Clauses, "E16 no field of a struct value is updated after the value was copied out unless the updated value is copied out again on a path compatible with the update's own conditions")
 }
 
-
 // reachesStmt: is there a CFG path from statement a to statement b (a before b in the same
 // block, or through successor blocks)?
 func reachesStmt(fn *Func, a, b ast.Node, kills map[ast.Node]bool) bool {
